@@ -67,3 +67,32 @@ package regprocessor
 //@   requires ipNet != nil
 //@   ensures @C12: result1 == nil && maskBits(ipNet.Mask) - maskOnes(ipNet.Mask) >= 0 && maskBits(ipNet.Mask) - maskOnes(ipNet.Mask) < 32 ==> exists nw int :: 0 <= nw && nw < 4294967296 && (result0 - nw) % 4294967296 < pow2(maskBits(ipNet.Mask) - maskOnes(ipNet.Mask))
 //@   assigns nothing
+
+// ---------------- C12 / C11: the wrapper forwarded to the stations ----------------
+//@ import proto "google.golang.org/protobuf/proto"
+//@ import ed25519 "crypto/ed25519"
+//@ import metrics "github.com/refraction-networking/conjure/pkg/metrics"
+//@ func (m *metrics.Metrics) Add(name string, val int)
+//@   assigns nothing
+//@   trusted
+// (ed25519.Sign panics for a private key of the wrong length - a configuration matter, not input)
+//@ func ed25519.Sign(privateKey ed25519.PrivateKey, message []byte) []byte
+//@   assigns nothing
+
+// C12 "what the registrar tells the client is what it tells the stations, unforgeably": the wrapper that is
+// marshalled for the stations carries the client's shared secret and payload and the SAME registration-response
+// object that was answered to the client; with authentication on, the bytes that are signed are exactly the
+// marshalling of that response and they travel with their signature; a registrant address supplied inside a wrapper
+// that claims the registrar's own channel as its source is replaced by the address the request really came from.
+// C11: any wrapper (absent sub-messages, short secrets) is processed without a nil dereference.
+//@ func (p *RegProcessor) processC2SWrapper(c2sPayload *pb.C2SWrapper, clientAddr []byte, regMethod pb.RegistrationSource) ([]byte, error)
+//@   requires p != nil && p.metrics != nil
+//@   atcall proto.Marshal#1 before: assert @C12: p.authenticated && c2sPayload.RegistrationResponse != nil && arg0 == box(c2sPayload.RegistrationResponse)
+//@   atcall proto.Marshal#1 after: snap signedBytes := res0
+//@   atcall ed25519.Sign before: assert @C12: defined(signedBytes) && arg1 == signedBytes && arg0 == p.privkey
+//@   atcall proto.Marshal#2 before: assert @C12: arg0 == box(payload) && payload.RegistrationResponse == c2sPayload.RegistrationResponse && payload.SharedSecret == c2sPayload.SharedSecret && payload.RegistrationPayload == c2sPayload.RegistrationPayload
+//@   atcall proto.Marshal#2 before: assert @C12: p.authenticated && c2sPayload.RegistrationResponse != nil ==> defined(signedBytes) && payload.RegRespBytes == signedBytes
+//@   atcall proto.Marshal#2 before: assert @C12: (len(c2sPayload.RegistrationAddress) == 0 && c2sPayload.RegistrationAddress == nil || (c2sPayload.RegistrationSource != nil && *c2sPayload.RegistrationSource == regMethod) || (c2sPayload.RegistrationSource == nil && regMethod == 0)) && clientAddr != nil ==> payload.RegistrationAddress == clientAddr
+//@   ensures @C11 @C12: c2sPayload == nil ==> result1 == ErrNoC2SBody
+//@   ensures @C11: true
+//@   checks safety
